@@ -163,6 +163,27 @@ impl Op {
     }
 }
 
+/// The half-open index range `a..b` written in one of the equivalent `RangeBounds` forms (`a..b`, `a..=b-1`, `..b`, `a..`,
+/// excluded start bounds), chosen deterministically from (a, b): every form denotes the same set of indices, so the
+/// reference and the Coq model (which see only a and b) are unaffected.  Invalid ranges keep the plain form.
+fn range_form(a: usize, b: usize, len: usize) -> (core::ops::Bound<usize>, core::ops::Bound<usize>) {
+    use core::ops::Bound::*;
+    if a > b || b > len {
+        return (Included(a), Excluded(b));
+    }
+    let start = match (a + 2 * b) % 3 {
+        0 if a == 0 => Unbounded,
+        1 if a > 0 => Excluded(a - 1),
+        _ => Included(a),
+    };
+    let end = match (2 * a + b) % 3 {
+        0 if b == len => Unbounded,
+        1 if b > 0 => Included(b - 1),
+        _ => Excluded(b),
+    };
+    (start, end)
+}
+
 // ----------------------------------------------------------------------------- reference forest
 
 /// What the reference expects an operation to return.
@@ -443,7 +464,7 @@ fn exec(t: &mut TaffyTree<u32>, op: &Op, ids: &[NodeId]) -> [u64; 4] {
         }
         Op::RemoveChild(p, c) => enc_id(t.remove_child(id(p), id(c))),
         Op::RemoveChildAt(p, i) => enc_id(t.remove_child_at_index(id(p), *i as usize)),
-        Op::RemoveRange(p, a, b) => enc_unit(t.remove_children_range(id(p), *a as usize..*b as usize)),
+        Op::RemoveRange(p, a, b) => enc_unit(t.remove_children_range(id(p), range_form(*a as usize, *b as usize, t.child_count(id(p))))),
         Op::ReplaceChildAt(p, i, c) => enc_id(t.replace_child_at_index(id(p), *i as usize, id(c))),
         Op::Remove(n) => enc_id(t.remove(id(n))),
         Op::Clear => {
